@@ -266,6 +266,14 @@ def _guard(func, it):
         return out
     except Exception as e:
         return _worker_exception(it, e, _CURRENT if _CURRENT is not None and cur0 is not _CURRENT else None)
+    except BaseException as e:
+        if type(e).__name__ not in ("Inconclusive", "PathAbort"):
+            raise
+        r = Result(it)
+        cur = _CURRENT if _CURRENT is not None and cur0 is not _CURRENT else None
+        r.ob(1)
+        r.inconc(f"{type(e).__name__}: {str(e)[:200]}")
+        return r.as_dict()
 
 
 def exception_origin(e):
